@@ -74,6 +74,12 @@ class Ctx:
         os.makedirs(self.run_dir, exist_ok=True)
         os.makedirs(os.path.join(VERIF, "replays"), exist_ok=True)
         import glob
+        self.replay_signature = None
+        if replay and os.path.exists(replay):
+            try:
+                self.replay_signature = json.load(open(replay)).get("signature")
+            except Exception:
+                pass
         for old in glob.glob(os.path.join(VERIF, "replays", f"{pid}-*.json")):
             os.remove(old)
         self.violations = []          # (signature dict, what, replay payload)
@@ -214,6 +220,9 @@ class Ctx:
 
     # ---------------------------------------------------------------- finish
     def finish(self, level, coverage, trusted_base, checker_cmd):
+        if self.replay_signature is not None:
+            # replay: re-run the check and keep only the violation recorded in the replay file
+            self.violations = [v for v in self.violations if v[0] == self.replay_signature]
         lines = []
         for h in self.known_hits:
             lines.append(f"KNOWN-FINDING: property={self.pid} {h['what']} (hit {h['count']}x)")
